@@ -24,6 +24,32 @@ CONCURRENCY = {
 }
 
 FUNCTIONS = {
+  # behavioural contracts of the pool hooks (each pool class is verified against its own)
+  'PoolSink._Get': dict(file='scales/pool/base.py', cls='PoolSink', returns='Channel', may_yield=True, trusted=True,
+                        requires=[], ensures=[], raises={'Exception': dict()}, modifies=['*'], allocates=True,
+                        notes='abstract hook: lends a sink (may block while a connection opens, may raise)'),
+  'PoolSink._Release': dict(file='scales/pool/base.py', cls='PoolSink', params={'sink': 'any'}, trusted=True,
+                            requires=[], ensures=[], modifies=['*'], allocates=True,
+                            notes='abstract hook: takes a lent sink back'),
+  'PoolSink.AsyncProcessRequest': dict(
+    file='scales/pool/base.py', cls='PoolSink',
+    params={'sink_stack': 'ClientMessageSinkStack', 'msg': 'Message', 'stream': 'any', 'headers': 'any'},
+    requires=[], ensures=[], modifies=['*'], allocates=True,
+    yields=[{'at': 'self._Get()'}],
+    ghost=[
+      {'before': 'sink_stack.AsyncProcessResponseMessage(ex_msg)', 'do': ['prove(ex_msg.error is not None, "get-failure-answered-with-an-error")']},
+      {'after': 'sink_stack.Push(self, sink)', 'do': [
+        'prove(sink_stack._stack[len(sink_stack._stack) - 1][0] == self and sink_stack._stack[len(sink_stack._stack) - 1][1] == sink, "lent-sink-recorded-for-release")']},
+    ],
+    props=['C01', 'C07'],
+  ),
+  'PoolSink.AsyncProcessResponse': dict(
+    file='scales/pool/base.py', cls='PoolSink',
+    params={'sink_stack': 'ClientMessageSinkStack', 'context': 'any', 'stream': 'any', 'msg': 'any'},
+    requires=[], ensures=[], modifies=['*'], allocates=True,
+    ghost=[{'before': 'sink_stack.AsyncProcessResponse(stream, msg)', 'do': ['g_released_before_forward = True']}],
+    props=['C01', 'C07'],
+  ),
   'SingletonPoolSink._Get': dict(
     cls='SingletonPoolSink', returns='Channel?', conc='Singleton', may_yield=True,
     requires=[], ensures=[],
